@@ -123,9 +123,9 @@ def gen_fn_cases(rng, caps0, tier, searching):
             triples = [(2, 5, 3), (2, 0, 0)]
             cap = caps0[mi]
             if mi in scal:
-                if cap + d > 400000:
+                if cap + d > 400000 and mi not in (4, 6):
                     continue
-                g[scal[mi]] = cap + d
+                g[scal[mi]] = min(cap + d, U32 if mi in (4, 6) else cap + d)
             elif mi == 0:
                 if cap + d > 40000:
                     continue
@@ -284,8 +284,9 @@ class RandomProgram:
                 self.note("decl")
             elif r < 0.40:
                 e, c = self.expr(vars_, fns)
-                if vars_ and rng.random() < 0.5:
-                    p.line("%s get %s" % (rng.choice(vars_), e))
+                assignable = [v for v in vars_ if not v.startswith("i")]
+                if assignable and rng.random() < 0.5:
+                    p.line("%s get %s" % (rng.choice(assignable), e))
                 else:
                     p.line("shout(%s)" % e)
                 p.tok("s%d" % c)
@@ -322,7 +323,7 @@ class RandomProgram:
                 p.ind -= 1
                 p.line("end")
                 if has_else:
-                    p.tok("|")
+                    p.tok("/")
                     p.line("if not so start")
                     p.ind += 1
                     self.block(vars_, fns, in_loop, in_fn, depth + 1, rng.randint(0, 4))
@@ -484,7 +485,7 @@ FAMILIES = [
     ("locals", "locals", 0, 600000, "quick"),
     ("statements", "statements", 0, 600000, "quick"),
     ("functions", "functions", 0, 80000, "quick"),
-    ("scopes", "scopes", 0, 600000, "thorough"),
+    ("scopes", "scopes", 0, 600000, "quick"),
     ("direct_user_calls", "calls", 0, 600000, "thorough"),
 ]
 
@@ -549,7 +550,7 @@ def threshold(env, target, fam, lo, hi):
 
 # --- running programs on the implementation ------------------------------------------------------
 
-def run_progs(env, name, progs, release=False, arena_mib=256, timeout=1800):
+def run_progs(env, name, progs, release=False, arena_mib=256, timeout=600, single_timeout=60):
     """progs: list of (id, source).  Batch run; on a crash the remaining programs are run one by one.
     Returns {id: dict | {'crash': text}}."""
     d = os.path.join(env.work, name)
@@ -575,9 +576,11 @@ def run_progs(env, name, progs, release=False, arena_mib=256, timeout=1800):
     for pid, _ in progs:
         if pid not in res:
             o1 = os.path.join(d, "%s.json" % pid)
-            rc1, t1 = common.sh("%s limits prog %s %s %d > /dev/null" % (common.harness_bin(release), paths[pid], o1, arena_mib), timeout=timeout)
+            rc1, t1 = common.sh("%s limits prog %s %s %d > /dev/null" % (common.harness_bin(release), paths[pid], o1, arena_mib), timeout=single_timeout)
             if rc1 == 0 and os.path.exists(o1):
                 res[pid] = json.load(open(o1))
+            elif rc1 == 124:
+                res[pid] = {"timeout": single_timeout}       # inconclusive, never a violation
             else:
                 res[pid] = {"crash": "exit %s: %s" % (rc1, t1[-400:])}
     return res
@@ -615,6 +618,8 @@ def split_diags(r):
 def oracle(r, expected_out=None):
     """Violations of C18 visible in one implementation run (no model involved)."""
     bad = []
+    if "timeout" in r:
+        return []
     if "crash" in r:
         return ["implementation crashed: " + r["crash"]]
     if r.get("parse_errors"):
@@ -802,13 +807,13 @@ def correspond(env, searching=False, model=True):
     extra["fn_verdicts"] = verdict_hist
 
     # ---- stream B -----------------------------------------------------------------------------
-    n_shapes = 250 if env.tier == "quick" else 6000
+    n_shapes = 1500 if env.tier == "quick" else 40000
     if searching:
         n_shapes *= 3
     progs = []
     kinds_b = {}
     for i in range(n_shapes):
-        g = RandomProgram(rng, rng.choice([6, 12, 25, 50]), rng.choice([2, 3, 5]))
+        g = RandomProgram(rng, rng.choice([6, 12, 25, 50, 120]), rng.choice([2, 3, 5, 7]))
         p = g.build()
         progs.append(("b%d" % i, p.text(), p.shape_text()))
         for k, v in g.kinds.items():
